@@ -23,7 +23,7 @@ from concurrent.futures import ThreadPoolExecutor
 from pathlib import Path
 from typing import Dict, List
 
-from fjv import tlc
+from fjv import engines, tlc
 from fjv.core import Check, MachineryFailure
 
 PROGS = {
@@ -35,7 +35,7 @@ PROGS = {
 
 API_CHILD = r'''
 import sys, json, hashlib, io, contextlib, struct
-sys.path.insert(0, "/repo")
+sys.path.insert(0, "@@REPO@@")
 import flipjump
 from pathlib import Path
 from flipjump.fjm.fjm_consts import FJMVersion
@@ -59,9 +59,9 @@ for j in jobs:
         r["err"] = f"{type(e).__name__}: {str(e)[:200]}"
     res.append(r)
 json.dump(res, open(sys.argv[2], "w"))
-'''
+'''.replace("@@REPO@@", str(engines.REPO))
 
-FJ = [sys.executable, "-c", "import sys; sys.path.insert(0, '/repo'); from flipjump.flipjump_cli import main; main()"]
+FJ = [sys.executable, "-c", f"import sys; sys.path.insert(0, {str(engines.REPO)!r}); from flipjump.flipjump_cli import main; main()"]
 
 
 def cli_args(o: dict) -> List[str]:
@@ -174,8 +174,8 @@ CHECK_DEADLOCK FALSE
     must = [c for c in combos if c["opts"]["w"] == 0 and c["opts"]["preset"] == 99 and not c["opts"]["d"] and not c["opts"]["werror"] and c["opts"]["s"]]
     sel = must + [c for c in sel if c not in must]
     progs = dict(PROGS)
-    progs["nostl_hello.fj"] = ("nostl", Path("/repo/programs/print_tests/hello_no-stl.fj").read_text(), b"")
-    progs["stl_cat.fj"] = ("stl", Path("/repo/programs/print_tests/cat.fj").read_text(), b"ab\n")
+    progs["nostl_hello.fj"] = ("nostl", (engines.REPO / "programs/print_tests/hello_no-stl.fj").read_text(), b"")
+    progs["stl_cat.fj"] = ("stl", (engines.REPO / "programs/print_tests/cat.fj").read_text(), b"ab\n")
     base = Path(tempfile.mkdtemp(prefix="fjv_c20_"))
     try:
         work = []
